@@ -82,6 +82,18 @@ CHECKS = {
         ref="DESIGN.md section 6 C05",
         note="Interfaces are declared by one service in the generated sets; directive-definition conflicts are not part of the property.",
         technique="TLA+ declarative conflict definition + TLC enumeration of schema sets replayed on the real merger in all orders + TLC trace validation"),
+    "C07": dict(
+        category="model_checking",
+        text="HttpFront.tla is a grammar of request SHAPES (content type x JSON body shape x member classes of query/variables/operationName x batch element classes x multipart layout x 17 file-map path classes x 11 query-text classes incl. an interface without members, root __typename, introspection mixed with data) and Outcome(shape), what the property allows (422 / 200 with errors and data:null / 200 with a well-formed envelope; always: the handler returns and the next request is served). TLC enumerates all 1,768 shapes; the driver renders each to bytes (2 quick / 6 thorough renderings), sends it to the real Gateway.Handler of a real gateway, sends a canary, and TLC checks the recorded answer against Outcome (HttpFrontTrace). 1,500 (quick) / 20,000 (thorough) byte-mutated renderings per shard are checked against the shape-independent part of the property. The driver is a child process: a panic in a gateway goroutine is observed as its death.",
+        ref="DESIGN.md section 6 C07",
+        note="\"All byte strings\" is covered as shape classes plus random byte mutations, not exhaustively; the handler is invoked in-process (a panic in the handler goroutine is caught by the driver and reported).",
+        technique="TLA+ shape grammar + outcome function, TLC enumeration replayed on the real handler, TLC trace validation of the answers"),
+    "C08": dict(
+        category="model_checking",
+        text="BatchFront.tla models the batch fan-out of gateway.go (Run(i): operation i executed; Place(i): the reducer stored its result at index i; Emit); TLC checks InOrder for every interleaving (n<=3 quick, n<=4 thorough) and every behaviour is FORCED on the real handler through the hook gates of the batch-level AsyncMapReduce instance. BatchTrace.tla states the contract on observations: status 200, an array of exactly N results, result i = the result the same operation gets when sent alone to the same gateway. Also perturbed free batches of 0..30 operations (queries, mutation, introspection, invalid, failing downstream, slow) on plain and caching gateways: 1.6k (quick) / 30k (thorough) batches validated by TLC.",
+        ref="DESIGN.md section 6 C08",
+        note="Single results are observed on the real code right after the batch; downstream failure / slowness is selected by operation name so that it is the same alone and in a batch; nested fan-outs are not gated.",
+        technique="TLA+ model of the fan-out (TLC, all interleavings) forced on the real handler via hook gates + TLC trace validation of batch-vs-single observations"),
 }
 
 PENDING = "not claimed yet: specification and binding for this property are still being built (DESIGN.md section 10 build order)"
